@@ -323,6 +323,44 @@ fn inf_imm_cases<F: Function<Trace = VmTrace>>(cx: &mut Cx, backend: &str, make:
     }
 }
 
+/// binary operators with a small or a huge constant on boxes at the far end of the float range: the quotients, products
+/// and sums overflow to infinity for *both* bounds of a finite box (`mod(x, 0.3)` on [3.0e38, 3.2e38]), on one bound
+/// only, or not at all
+fn far_field_cases<F: Function<Trace = VmTrace>>(cx: &mut Cx, backend: &str, make: &dyn Fn(&Prog) -> Option<F>) {
+    use vharness::tapes::{GOp, BINARY, IMMREG, UNARY};
+    let base = json!({"backend": backend, "tag": "far-field", "nout": 1});
+    let consts = [0.3f32, 1.0e-3, 0.5, 7.0, 1.0e-30, 1.0e30, 3.0e38, -0.3, -1.0e-20, 2.0];
+    let boxes = [(3.0e38f32, 3.2e38f32), (1.0e38, 3.4e38), (-3.2e38, -3.0e38), (-3.4e38, 3.4e38), (1.0e37, 1.0e38), (3.4028235e38, 3.4028235e38), (-1.0, 3.0e38), (1.0e-38, 1.0e-37), (-1.0e-45, 1.0e-45)];
+    for n in BINARY.iter() {
+        for c in consts {
+            for form in [4u8, 5] {
+                if form == 5 && !IMMREG.contains(n) { continue; }
+                for tail in ["Neg", UNARY[(cx.id / 7) % UNARY.len()]] {
+                    let p = Prog { ssa: vec![GOp::new(0, "Output", -1, 2, 0, 0), GOp::new(3, tail, 2, 1, -1, 0), GOp::new(form, n, 1, 0, -1, bits(c)), GOp::new(1, "Input", 0, 0, -1, 0)], nvars: 1 };
+                    let Some(f) = make(&p) else { continue };
+                    for (l, h) in boxes {
+                        let bx = vec![Interval::new(l, h)];
+                        let t = interval_trace(&f, &bx);
+                        if t.panic || cx.id % 11 == 0 {
+                            let mut j = base.clone();
+                            j["ev"] = json!("eval");
+                            j["id"] = json!(cx.id);
+                            j["kind"] = json!("interval");
+                            j["panic"] = json!(t.panic);
+                            j["err"] = json!(t.err);
+                            j["out"] = json!(t.out.iter().map(ibits).collect::<Vec<_>>());
+                            j["in"] = json!(bx.iter().map(ibits).collect::<Vec<_>>());
+                            j["ssa"] = if t.panic { ops_json(&p.ssa) } else { json!([]) };
+                            writeln!(cx.w, "{j}").unwrap();
+                        }
+                        cx.id += 1;
+                    }
+                }
+            }
+        }
+    }
+}
+
 fn main() {
     let args: Vec<String> = std::env::args().collect();
     let which = args[1].clone();
@@ -371,8 +409,10 @@ fn main() {
     }
     if which == "vm" {
         narrow_cases::<VmFunction>(&mut cx, "vm", &|p| vm_fn::<255>(p).ok(), quick);
+        far_field_cases::<VmFunction>(&mut cx, "vm", &|p| vm_fn::<255>(p).ok());
     } else {
         narrow_cases::<JitFunction>(&mut cx, "jit", &|p| jit_fn(p).ok(), quick);
+        far_field_cases::<JitFunction>(&mut cx, "jit", &|p| jit_fn(p).ok());
     }
     let n = cx.id;
     file.flush().unwrap();
